@@ -13,7 +13,7 @@ tvars == <<t, l, und, stack, prog>>
 
 BaseSeq == <<"L", "M", "T", "I", "K", "N", "J", "A">>
 DimOf(seq) == [k \in Base |-> seq[CHOOSE i \in 1..8 : BaseSeq[i] = k]]
-Tok(j) == [op |-> j.op, n |-> j.n, d |-> DimOf(j.d), a |-> j.a, hn |-> j.hn, v |-> j.v]
+Tok(j) == [op |-> j.op, n |-> j.n, d |-> DimOf(j.d), a |-> j.a, hn |-> j.hn, v |-> j.v, lt |-> j.lt]
 
 Ev == Traces[t].ev
 Cur == Tok(Ev[l])
@@ -23,7 +23,7 @@ TInit == /\ t \in 1..Len(Traces) /\ l = 1 /\ stack = <<>> /\ prog = <<>> /\ und 
 TStep == /\ l <= Len(Ev)
          /\ CanStep(Cur, stack)
          /\ stack' = StepStack(Cur, stack)
-         /\ und' = (und \/ (Cur.op = "pow" /\ ~PowDecided(TopN(stack, 2))))
+         /\ und' = (und \/ ~Decided(Cur, TopN(stack, Cur.n)))
          /\ l' = l + 1
          /\ UNCHANGED <<t, prog>>
 
